@@ -28,17 +28,17 @@ def plan(tier, ctx):
     for mm in ('sc', 'tso'):
         j += fvm.config('C11', 'sigflag', 'sigflag.c', 2, 4, mm, srcs=src, spec=fvm.kspec(2), bounds='channel receive pattern over the real signal, queue abstracted to one word; signal initially clear or RAISED (symbolic); 1 message; %s' % mm, timeout=1500)
     if tier == 'thorough':
-        j += fvm.config('C11', 'chan_unbounded_1x1', 'chan.c', 2, 4, 'sc', srcs=src, defines=['KIND=2', 'NSEND=1', 'NMSG=1'], spec=fvm.kspec(2), bounds='unbounded channel, 1 sender x 1', timeout=1500, required=False)
+        j += fvm.config('C11', 'chan_unbounded_1x1', 'chan.c', 2, 4, 'sc', srcs=src, defines=['KIND=2', 'NSEND=1', 'NMSG=1'], spec=fvm.kspec(2), bounds='unbounded channel, 1 sender x 1', timeout=900, required=False)
         j += fvm.config('C11', 'mchan_1s1r_3', 'mchan.c', 2, 5, 'sc', srcs=src, defines=['NSEND=1', 'NRECV=1', 'NMSG=3'], spec=fvm.kspec_amutex(2),
-                        bounds='multi channel cap 2 (abstract mutex), 1 sender x 3, 1 receiver (the sender must block on the full channel)', timeout=1500, required=False)
-        j += fvm.config('C11', 'chan_bounded_1x2', 'chan.c', 2, 5, 'sc', srcs=src, defines=['KIND=1', 'NSEND=1', 'NMSG=2'], spec=fvm.kspec(2), bounds='bounded channel cap 2, 1 sender x 2', timeout=1500, required=False)
-        j += fvm.config('C11', 'chan_sp_1x2', 'chan.c', 2, 5, 'sc', srcs=src, defines=['KIND=3', 'NSEND=1', 'NMSG=2'], spec=fvm.kspec(2), bounds='single-producer channel, 2 messages', timeout=1500, required=False)
-        j += fvm.config('C11', 'chan_unbounded_1x2', 'chan.c', 2, 5, 'sc', srcs=src, defines=['KIND=2', 'NSEND=1', 'NMSG=2'], spec=fvm.kspec(2), bounds='unbounded channel, 1 sender x 2', timeout=1500, required=False)
-        j += fvm.config('C11', 'signal_2w2r', 'signal.c', 3, 5, 'sc', srcs=src, defines=['NRAISE=2', 'NWAITS=2'], spec=fvm.kspec(3), bounds='2 waits, 2 raisers', timeout=1500, required=False)
-        j += fvm.config('C11', 'chan_unbounded_2x1', 'chan.c', 3, 5, 'sc', srcs=src, defines=['KIND=2', 'NSEND=2', 'NMSG=1'], spec=fvm.kspec(3), bounds='unbounded channel, 2 senders x 1', timeout=1500, required=False)
-        j += fvm.config('C11', 'chan_bounded_2x1', 'chan.c', 3, 5, 'sc', srcs=src, defines=['KIND=1', 'NSEND=2', 'NMSG=1'], spec=fvm.kspec(3), bounds='bounded channel cap 2, 2 senders x 1', timeout=1500, required=False)
-        j += fvm.config('C11', 'chan_sp_1x2', 'chan.c', 2, 5, 'tso', srcs=src, defines=['KIND=3', 'NSEND=1', 'NMSG=2'], spec=fvm.kspec(2), bounds='single-producer channel, TSO', timeout=1500, required=False)
+                        bounds='multi channel cap 2 (abstract mutex), 1 sender x 3, 1 receiver (the sender must block on the full channel)', timeout=900, required=False)
+        j += fvm.config('C11', 'chan_bounded_1x2', 'chan.c', 2, 5, 'sc', srcs=src, defines=['KIND=1', 'NSEND=1', 'NMSG=2'], spec=fvm.kspec(2), bounds='bounded channel cap 2, 1 sender x 2', timeout=900, required=False)
+        j += fvm.config('C11', 'chan_sp_1x2', 'chan.c', 2, 5, 'sc', srcs=src, defines=['KIND=3', 'NSEND=1', 'NMSG=2'], spec=fvm.kspec(2), bounds='single-producer channel, 2 messages', timeout=900, required=False)
+        j += fvm.config('C11', 'chan_unbounded_1x2', 'chan.c', 2, 5, 'sc', srcs=src, defines=['KIND=2', 'NSEND=1', 'NMSG=2'], spec=fvm.kspec(2), bounds='unbounded channel, 1 sender x 2', timeout=900, required=False)
+        j += fvm.config('C11', 'signal_2w2r', 'signal.c', 3, 5, 'sc', srcs=src, defines=['NRAISE=2', 'NWAITS=2'], spec=fvm.kspec(3), bounds='2 waits, 2 raisers', timeout=900, required=False)
+        j += fvm.config('C11', 'chan_unbounded_2x1', 'chan.c', 3, 5, 'sc', srcs=src, defines=['KIND=2', 'NSEND=2', 'NMSG=1'], spec=fvm.kspec(3), bounds='unbounded channel, 2 senders x 1', timeout=900, required=False)
+        j += fvm.config('C11', 'chan_bounded_2x1', 'chan.c', 3, 5, 'sc', srcs=src, defines=['KIND=1', 'NSEND=2', 'NMSG=1'], spec=fvm.kspec(3), bounds='bounded channel cap 2, 2 senders x 1', timeout=900, required=False)
+        j += fvm.config('C11', 'chan_sp_1x2', 'chan.c', 2, 5, 'tso', srcs=src, defines=['KIND=3', 'NSEND=1', 'NMSG=2'], spec=fvm.kspec(2), bounds='single-producer channel, TSO', timeout=900, required=False)
     if tier == 'thorough':
         j += fvm.config('C11', 'mchan_2s1r', 'mchan.c', 3, 5, 'sc', srcs=src, defines=['NSEND=2', 'NRECV=1', 'NMSG=2'], spec=fvm.kspec_amutex(3),
-                        bounds='multi channel cap 2, 2 senders x 2, 1 receiver', timeout=1500, required=False, mem_gb=24)
+                        bounds='multi channel cap 2, 2 senders x 2, 1 receiver', timeout=900, required=False, mem_gb=24)
     return j
